@@ -149,6 +149,9 @@ pub fn check(prog: &Program, ex: &Execution, cfg: &OracleCfg) -> OracleOut {
     let mut dropped: HashSet<(usize, usize)> = HashSet::new();
     // forced commands (commit / cancel) that were parked in the sender's overflow list
     let mut parked: HashSet<(usize, usize)> = HashSet::new();
+    // ... and among them those that were parked because a push found the ring full (the only
+    // reason the library has for parking; a `Park` without it is not covered by finding D12)
+    let mut parked_ring_full: HashSet<(usize, usize)> = HashSet::new();
     {
         let mut cur: HashMap<usize, (usize, usize, bool)> = HashMap::new(); // lt -> (top, j, forced)
         let mut count: HashMap<(usize, usize), usize> = HashMap::new(); // (lt, top) -> sends seen
@@ -173,6 +176,7 @@ pub fn check(prog: &Program, ex: &Execution, cfg: &OracleCfg) -> OracleOut {
                             dropped.insert((*top, *j));
                         } else {
                             parked.insert((*top, *j));
+                            parked_ring_full.insert((*top, *j));
                         }
                     }
                 }
@@ -563,7 +567,7 @@ pub fn check(prog: &Program, ex: &Execution, cfg: &OracleCfg) -> OracleOut {
                     let overtaken = es_t.iter().any(|i| {
                         let t = &m.traces[exps[*i].trace];
                         match (t.drop_send, t.cancel_op, t.finish_op) {
-                            (Some(d), Some(co), Some(fo)) => parked.contains(&send_time(prog, d)) && m.ops[co].thread != m.ops[fo].thread,
+                            (Some(d), Some(co), Some(fo)) => parked_ring_full.contains(&send_time(prog, d)) && m.ops[co].thread != m.ops[fo].thread,
                             _ => false,
                         }
                     });
